@@ -23,6 +23,13 @@ def store_text(op):
 
 # ---- templates ---------------------------------------------------------------------------------
 
+def _settle(rng, ops, p=0.35):
+    """Sometimes wait for the background flushes queued so far (so that later steps run after publication
+    and WAL cleanup, not only while a flush is still in flight)."""
+    if rng.random() < p:
+        ops.append({"op": "syncflush"})
+
+
 def t_auto(rng, cfg):
     """Auto-flush only, single lifetime: WAL ids and segment ids stay in step."""
     cap = cfg["fill_factor"] * cfg["event_per_zone"]
@@ -32,6 +39,7 @@ def t_auto(rng, cfg):
     for k in range(1, n + 1):
         ops.append(store_op(k, rng.choice(ctxs), "ev2" if rng.random() < 0.2 else "ev"))
         ops.append({"op": "sync"})
+        _settle(rng, ops)
     return ops
 
 
@@ -117,7 +125,24 @@ def t_compact_restart(rng, cfg):
     return ops
 
 
-TEMPLATES = {"auto": t_auto, "manual_flush": t_manual, "empty_flush": t_empty_flush, "restart": t_restart,
+def t_auto_crash_auto(rng, cfg):
+    """Auto-flush only across a *crash* restart: the WAL writer resumes a partly filled log and must stay in
+    step with the recovered memtable (no manual FLUSH, no clean shutdown anywhere)."""
+    cap = cfg["fill_factor"] * cfg["event_per_zone"]
+    ctxs = [f"c{i}" for i in range(rng.randint(2, 4))]
+    ops, k = [], 0
+    n1 = cap * rng.randint(0, 2) + rng.randint(1, max(1, cap - 1)) if cap > 1 else rng.randint(1, 3)
+    for _ in range(n1):
+        k += 1; ops += [store_op(k, rng.choice(ctxs)), {"op": "sync"}]
+    ops.append({"op": "restart_kill"})
+    ops.append({"op": "arm"})
+    for _ in range(cap * 2 + rng.randint(1, cap + 1)):
+        k += 1; ops += [store_op(k, rng.choice(ctxs)), {"op": "sync"}]
+        _settle(rng, ops, 0.5)
+    return ops
+
+
+TEMPLATES = {"auto_crash_auto": t_auto_crash_auto, "auto": t_auto, "manual_flush": t_manual, "empty_flush": t_empty_flush, "restart": t_restart,
              "compact": t_compact, "compact_restart": t_compact_restart}
 
 
@@ -196,6 +221,14 @@ def play(lt, ops, crash=None, trace=False, on_step=None):
             elif o == "compact":
                 for s in range(node.cfg["shard_count"]):
                     pl.compactions.append(node.meta(f"compact {s}", timeout=120))
+            elif o == "syncflush":
+                node.syncflush()
+                pl.applied.update(pending); pending = {}
+                pl.wal_seen |= scan_wal(lt.root)
+            elif o == "restart_kill":
+                node.syncflush()          # quiescent, so the first lifetime's outcome is deterministic
+                pl.applied.update(pending); pending = {}
+                node = lt.restart_kill()
             elif o == "restart_clean":
                 node.syncflush()
                 pl.applied.update(pending); pending = {}
@@ -216,7 +249,19 @@ def play(lt, ops, crash=None, trace=False, on_step=None):
         node.kill()
         pl.exit_code = node.exit_code
     pl.wal_at_crash = scan_wal(lt.root)
+    pl.unindexed_dir_at_crash = unindexed_dirs(lt.root)
     return pl
+
+
+def unindexed_dirs(root):
+    """True if some shard has a numeric segment directory while its segments.idx does not exist (first flush of the
+    shard crashed before its index entry was written)."""
+    import glob, os
+    for sd in glob.glob(os.path.join(root, "cols", "shard-*")):
+        has_dir = any(d.isdigit() for d in os.listdir(sd) if os.path.isdir(os.path.join(sd, d)))
+        if has_dir and not os.path.exists(os.path.join(sd, "segments.idx")):
+            return True
+    return False
 
 
 def enumerate_points(trace):
